@@ -119,6 +119,9 @@ def check(ctx):
             lam = c.args[1] if len(c.args) > 1 else None
             okl = isinstance(lam, ast.Lambda) and isinstance(lam.body, ast.Call) and norm(lam.body.func) == 'self._no_answer_do_retry' and \
                 [norm(a) for a in lam.body.args] == ['pk', key]
+            # functools.partial(self._no_answer_do_retry, pk, key) binds the same two values
+            okl = okl or (isinstance(lam, ast.Call) and dotted(lam.func) in ('partial', 'functools.partial') and not lam.keywords and
+                          [norm(a) for a in lam.args] == ['self._no_answer_do_retry', 'pk', key])
             ctx.inst('R1', sp, ('retry' if is_retry else 'first') + '-timer-callback', bool(okl),
                      'timer must fire self._no_answer_do_retry(pk, %s); found %s' % (key, norm(lam) if lam is not None else None))
             ctx.inst('R1', sp, ('retry' if is_retry else 'first') + '-timer-interval', norm(c.args[0]) == 'timeout' if c.args else False,
